@@ -36,6 +36,10 @@ CLAIMED = {
             "bounded-exhaustive enumeration of (function body, region, options) with CPython execution before/after as the oracle",
             "All bodies of <=2 (3) statements over 20 data-flow atoms in a function and a method host x every contiguous statement run at every nesting level and every sub-expression x ExtractMethod/ExtractVariable x similar/global_/kind options are refactored with the real code; each performed result is compiled and executed for inputs 0,1,2 and must print what the original printed; refusals must leave the disk unchanged.",
             "behaviour is compared on the enumerated inputs only; bounded body length and atom alphabet", "3/C03"),
+    "C04": ("exploration",
+            "bounded-exhaustive enumeration of (definition shape, call-site list, host, query point, options) with CPython execution before/after as the oracle",
+            "4 signatures x 5 body shapes x 3 hosts (defining module, `import`, `from import`) x every list of 1-2 (3) call sites (every positional/keyword/default passing shape x 3 argument forms x 4 contexts) x query at the definition or at each call site x remove/only_current are inlined with the real code, plus InlineVariable and InlineParameter spaces; every performed result is compiled and all modules are run before/after.",
+            "behaviour = stdout + exception type of importing every module; bounded shapes", "3/C04"),
 }
 
 PENDING_REASON = "check not built yet in this session (see DESIGN.md section 8 build order); nothing is claimed for it"
